@@ -301,3 +301,7 @@ PROPS["C19"].update({"lean": ["DM.Props.C19"], "gens": ["c19", "c19p"],
     "explanation": PROPS["C19"]["explanation"] + " Theorem live_plans_le_36 (DM/Props/C19.lean): for every candidate list, the model of remove_hopeless_cases keeps at most 36 plans (pairwise distinct (start mode, current mode)) and only removes; the model is compared with the code on every call of remove_hopeless_cases recorded by the hook (sorted input and final list) during planning of the sweep's inputs. The per-iteration arithmetic (36 + 5*36 = 216 steps) is steps_per_iteration; that the loop runs len+1 times is checked by the counters, not proved.",
     "level_text": "Partial proof (pruning bound for every candidate list, model tied to the code call by call) + instrumented counters for the iteration count.",
     "unproved": ["optimize_iterations: every live plan reads exactly one character per step, so the loop ends after len + 1 iterations"]})
+
+PROPS["C02"]["gens"] = ["c02", "c02p", "c02x"]
+PROPS["C02"]["explanation"] += " Model correspondence: the Lean model of the whole data encoder (DM/Model/Encode.lean: main loop, maybe_switch_mode, the six mode encoders with all end-of-data branches, add_padding; every assertion / unreachable / capacity / underflow site an explicit panic outcome) is run on the plan the implementation used (hook) for every case of the sweep and must produce the same codewords and size, and on thousands of arbitrary mutated plans injected through the plan-override hook it must agree with the implementation including the cases where the implementation panics."
+PROPS["C02"]["technique"] = "specification oracle (Lean reference decoder) on implementation output + Lean encoder model correspondence (real and injected plans) + padding theorem"
